@@ -545,25 +545,37 @@ def saw_empty_global_table(d):
 def transient_empty_global_table(case, params):
     """A thread transiently ran on the emptied global table while another thread's stop-the-world update had drained
     it: the consequence of the open C15 exit window (a thread that the stopper counts as stopped is running).  Known
-    only as the rare race: not seen again in 3 re-runs of the same program; a reproducible occurrence is a new defect."""
+    only as the rare race: seen again in fewer than 4 of 12 re-runs of the same program; a reproducible occurrence is a new defect."""
     return case.get("kind") == "transient-empty-global-table" and case.get("reproduced") is False
 
 
 def empty_table_case(ck, d, units, jit, delay=None):
     if saw_empty_global_table(d):
         return {"kind": "transient-empty-global-table", "jit": jit, "units": units, "delay": delay,
-                "reproduced": reproduces(ck, units, jit, delay, saw_empty_global_table)}
+                "reproduced": reproduces(ck, units, jit, delay, saw_empty_global_table, *EMPTY_TABLE_RERUNS)}
     return None
 
 
-def reproduces(ck, units, jit, delay, symptom, n=3):
-    """Re-run a failing case n times with the same settings; True when `symptom(result)` shows up again.
-    Used to separate reproducible defects from the rare natural hits of the known C15 windows."""
-    for _ in range(n):
+def reproduces(ck, units, jit, delay, symptom, n=3, need=1):
+    """Re-run a failing case n times with the same settings; True when `symptom(result)` shows up again in at least
+    `need` of them.  Used to separate reproducible defects from the rare natural hits of the known C15 windows."""
+    hits = 0
+    for i in range(n):
         d = run_engine(ck, units, jit, delay=delay)
         if symptom(d):
-            return True
+            hits += 1
+            if hits >= need:
+                return True
+        if hits + (n - i - 1) < need:
+            return False
     return False
+
+
+# The empty-table symptom of the open exit window comes in bursts (its rate depends on how the scheduler preempts the
+# exiting thread: 0 in 60 runs on an idle machine, 2 in 4 in one observed burst), so "seen again once in 3 re-runs"
+# misclassified the listed race as a new defect.  A defect of the handshake itself (seeded changes C15-2, C16-2)
+# shows the symptom in nearly every run: the rule is "at least 4 of 12 re-runs".
+EMPTY_TABLE_RERUNS = (12, 4)
 
 
 F18_UNITS = [
